@@ -34,7 +34,7 @@ CHECK = "check_case"
 MODEL = "model_of"
 RULE = ("A-cases: decorator configurations api in {attr.s, define, frozen} x auto_detect x auto_exc x slots x "
         "eq/cmp in {unset,T,F} x hash x unsafe_hash in {unset,T,F} (+ a non-bool in the malformed stream) x frozen x "
-        "own __hash__ x own {__eq__,__ne__} x cache_hash x init in {default, init=False, own __init__} x base class "
+        "own __hash__ x own {__eq__,__ne__} x field x with/without an eq key (seeded) x cache_hash x init in {default, init=False, own __init__} x base class "
         "in {object, plain class with __hash__, Exception, BaseException, attrs bases: frozen / frozen+cache_hash / unsafe_hash / "
         "unsafe_hash+cache_hash / unhashable / eq=False / frozen caching exception / hashable exception / define-frozen, "
         "each dict and slotted}; thorough = the full product over 7 base kinds for attr.s and define plus seeded random "
@@ -42,7 +42,8 @@ RULE = ("A-cases: decorator configurations api in {attr.s, define, frozen} x aut
         "auto_exc x eq x hash x unsafe_hash x frozen x own __hash__ x own __eq__/__ne__ x (frozen base, exception "
         "base)) with the remaining dimensions drawn from the seed, plus seeded random configurations. "
         "M-cases: classes over per-field hash in {None,T,F} x eq in {T,F,key0,key1} (all 12 one-field and all 144 "
-        "two-field classes, random three-field classes) x cache_hash x frozen x slots x api x inheritance split; all "
+        "two-field classes, random three-field classes) x cache_hash x frozen x slots x api x inheritance split x class-level eq in {generated, eq=False, own "
+        "__eq__ auto-detected} (unsafe_hash=True); all "
         "instances over {0,1,2}^k, all ordered pairs.  H-cases: the same classes, fixed histories (repeat, copy, "
         "deepcopy, pickle, evolve, assignment, fresh equal instance) and seeded random histories up to length 9. "
         "distinct = distinct (kind, input); non-trivial = A: not the all-default configuration; M: at least two "
@@ -159,6 +160,11 @@ def _user_ne(self, other):
     return self is not other
 
 
+def _akey(v):
+    """eq key of field x in A-configurations with xkey"""
+    return v
+
+
 def _plain_hash(self):
     return 5
 
@@ -240,7 +246,7 @@ _HVAL = {None: None, True: True, False: False, "X": 1}
 #  hash, unsafe : None | bool | "X"
 #  ohash, oeq, one, cache, oinit : bool ;  init : None | bool ;  base : name ; bsl : bool
 A_KEYS = ["api", "ad", "ax", "sl", "cmp", "eq", "hash", "unsafe", "frozen", "ohash", "oeq", "one", "cache",
-          "init", "oinit", "base", "bsl"]
+          "init", "oinit", "base", "bsl", "xkey"]
 
 
 def is_generated(fn):
@@ -258,11 +264,12 @@ def run_A(cf):
         return ("other", "base could not be built")
     name = "C%d" % next(_serial)
     ns = {"__module__": SYN}
+    xeq = {"eq": _akey} if cf.get("xkey") else {}
     if cf["api"] == "S":
-        ns["x"] = attr.ib(default=0)
+        ns["x"] = attr.ib(default=0, **xeq)
     else:
         ns["__annotations__"] = {"x": int}
-        ns["x"] = 0
+        ns["x"] = attrs.field(default=0, **xeq) if xeq else 0
     if cf["ohash"]:
         ns["__hash__"] = _user_hash
     if cf["oeq"]:
@@ -372,7 +379,8 @@ def _frozen_dict(cf):
 
 
 _DEFAULT_CF = dict(api="S", ad=None, ax=None, sl=None, cmp=None, eq=None, hash=None, unsafe=None, frozen=None,
-                   ohash=False, oeq=False, one=False, cache=False, init=None, oinit=False, base="obj", bsl=False)
+                   ohash=False, oeq=False, one=False, cache=False, init=None, oinit=False, base="obj", bsl=False,
+                   xkey=False)
 
 
 def mk_A(cf):
@@ -415,7 +423,7 @@ def gen_A(tier, rng):
                 out.append(dict(api=api, ad=_passed(api, "ad", ad, None, 0), ax=_passed(api, "ax", ax, None, 0),
                                 sl=_passed(api, "sl", sl, None, 0), cmp=None, eq=eq, hash=h, unsafe=u,
                                 frozen=_passed(api, "frozen", fz, None, 0), ohash=oh, oeq=oe, one=on, cache=ca,
-                                init=ini, oinit=oi, base=base, bsl=sl))
+                                init=ini, oinit=oi, base=base, bsl=sl, xkey=rng.random() < 0.5))
         n_random = 20000
     else:
         for api, ad, ax in itertools.product("SD", (False, True), (False, True)):
@@ -432,7 +440,7 @@ def gen_A(tier, rng):
                                     cmp=None, eq=eq, hash=h, unsafe=u,
                                     frozen=_passed(api, "frozen", fz, rng, 0.2), ohash=oh, oeq=oe, one=on,
                                     cache=ca, init=ini, oinit=oi, base=rng.choice(DECISION_BASES[bkey]),
-                                    bsl=rng.random() < 0.5))
+                                    bsl=rng.random() < 0.5, xkey=rng.random() < 0.5))
         n_random = 2500
     for _ in range(n_random):
         api = rng.choice("SSDDF")
@@ -452,6 +460,7 @@ def gen_A(tier, rng):
         cf["oinit"] = rng.random() < 0.3
         cf["base"] = rng.choice(ALL_BASES)
         cf["bsl"] = rng.random() < 0.5
+        cf["xkey"] = rng.random() < 0.5
         out.append(cf)
     return out
 
@@ -525,8 +534,10 @@ def build_B(cd):
     sys.modules[SYNB] = mod
     fields = cd["fields"]
 
-    def mk(name, parent, idxs, **kw):
+    def mk(name, parent, idxs, own_eq=False, **kw):
         ns = {"__module__": SYNB}
+        if own_eq:
+            ns["__eq__"] = _user_eq
         ann = {}
         for i in idxs:
             h, e = fields[i]
@@ -550,16 +561,21 @@ def build_B(cd):
         parent = mk("P%d" % next(_serial), object, range(cd["split"]), unsafe_hash=True,
                     cache_hash=cd["bcache"], slots=cd["slots"] or bool(cd.get("mixed")))
     kw = {"cache_hash": cd["cache"], "slots": cd["slots"]}
-    if cd["explicit"] or not cd["frozen"]:
+    ceq = cd.get("ceq", "gen")
+    if cd["explicit"] or not cd["frozen"] or ceq != "gen":
         kw["unsafe_hash"] = True
-    return mk("Q%d" % next(_serial), parent, range(cd["split"], k), **kw)
+    if ceq == "off":      # class-level eq=False: no __eq__ generated, fields keep their eq keys
+        kw["eq"] = False
+    elif ceq == "own":    # own __eq__ auto-detected: no __eq__ generated
+        kw["auto_detect"] = True
+    return mk("Q%d" % next(_serial), parent, range(cd["split"], k), own_eq=(ceq == "own"), **kw)
 
 
 def enc_cls(cd):
     # one class per case: identity and salt are irrelevant there (and large nat literals are unary in Coq)
-    return "(Cl 0 0%%Z %s %s %s %s)" % (
+    return "(Cl 0 0%%Z %s %s %s %s %s)" % (
         lst("(F %s %s)" % (opt(h, b), _EQ_COQ[e]) for h, e in cd["fields"]),
-        b(cd["cache"]), b(cd["frozen"]), b(cd["slots"]))
+        b(cd["cache"]), b(cd["frozen"]), b(cd["slots"]), b(cd.get("ceq", "gen") == "gen"))
 
 
 def _inst(cls, vals):
@@ -716,29 +732,35 @@ def _class_descs(tier, rng):
     out = []
     flags = list(itertools.product((False, True), repeat=3))  # cache, frozen, slots
 
-    def desc(fields, cache, frozen, slots, split=None, api=None):
+    def desc(fields, cache, frozen, slots, split=None, api=None, ceq=None):
         k = len(fields)
         d = dict(api=api or rng.choice("SD"), fields=[list(f) for f in fields], cache=cache, frozen=frozen,
                  slots=slots, split=rng.randint(0, k) if split is None else split,
                  bcache=rng.random() < 0.5, explicit=rng.random() < 0.5)
+        d["ceq"] = ceq or rng.choice(("gen", "gen", "off", "own"))
+        if d["ceq"] == "off":
+            d["split"] = 0   # below an attrs base the base's generated __eq__ would be inherited
         d["mixed"] = bool(d["split"] > 0 and not slots and rng.random() < 0.3)
         return d
 
     for f in FIELD_CFGS:
         for ca, fz, sl in flags:
             for api in "SD":
-                out.append(desc([f], ca, fz, sl, split=rng.choice((0, 0, 1)), api=api))
+                for ceq in ("gen", "off", "own"):
+                    out.append(desc([f], ca, fz, sl, split=rng.choice((0, 0, 1)), api=api, ceq=ceq))
     if tier == "thorough":
         for f, g in itertools.product(FIELD_CFGS, repeat=2):
             for ca, fz, sl in flags:
                 for split in (0, 1, 2):
-                    out.append(desc([f, g], ca, fz, sl, split=split))
+                    out.append(desc([f, g], ca, fz, sl, split=split, ceq="gen"))
+                out.append(desc([f, g], ca, fz, sl, ceq="off"))
+                out.append(desc([f, g], ca, fz, sl, ceq="own"))
         n3 = 1500
     else:
         for f, g in itertools.product(FIELD_CFGS, repeat=2):
-            for _ in range(2):
+            for ceq in ("gen", "off", "own"):
                 ca, fz, sl = rng.choice(flags)
-                out.append(desc([f, g], ca, fz, sl))
+                out.append(desc([f, g], ca, fz, sl, ceq=ceq))
         n3 = 150
     for _ in range(n3):
         ca, fz, sl = rng.choice(flags)
